@@ -66,6 +66,19 @@ Theorem set_algebra_generic :
 Proof. exact salg_mem. Qed.
 Print Assumptions set_algebra_generic.
 
+(* value semantics: replacing every member of the operands by an equal element (another
+   spelling of the same record) changes the result only by the same replacement *)
+Theorem set_algebra_respects_equality :
+  forall (A : Type) (eqb : A -> A -> bool),
+    (forall x, eqb x x = true) -> (forall x y, eqb x y = eqb y x) ->
+    (forall x y z, eqb x y = true -> eqb y z = true -> eqb x z = true) ->
+    forall a s s' o o',
+      NoDupE A eqb s -> NoDupE A eqb o ->
+      Forall2 (fun x y => eqb x y = true) s s' -> Forall2 (fun x y => eqb x y = true) o o' ->
+      Forall2 (fun x y => eqb x y = true) (salg_g A eqb a s o false) (salg_g A eqb a s' o' false).
+Proof. exact salg_value_semantics. Qed.
+Print Assumptions set_algebra_respects_equality.
+
 (* in-place forms, including the aliased calls a.union_update(a) etc. *)
 Theorem union_spec : forall s o same x, ND s -> ND o -> (same = true -> o = s) ->
   rmem x (sunion_update rd_eqb s o same) = rmem x s || rmem x o.
